@@ -166,7 +166,7 @@ fn gen_extra(src: &mut Src, g: &mut GenCfg, m: &RefRedis) -> Cmd {
         11 => vec![b("LMOVE"), k, g.key(src), b(["LEFT", "left", "RIGHT", "UP", ""][src.idx(5)]), b(["RIGHT", "right", "LEFT", "x"][src.idx(4)])],
         12 => { let mut v = vec![b("SCAN"), b(["0", "0", "abc", "", "-1"][src.idx(if g.edgy { 5 } else { 2 })])]; match src.below(6) { 0 => v.push(b("MATCH")), 1 => v.push(b("COUNT")), 2 => { v.push(b("COUNT")); v.push(b(["0", "-1", "abc", "1", "2"][src.idx(5)])); } 3 => { v.push(b("MATCH")); v.push(b(["k[01]", "[^k]*", "?0", "k\\0", "*"][src.idx(5)])); v.push(b("COUNT")); v.push(b(["1", "2", "3"][src.idx(3)])); } 4 => v.push(b("NOPE")), _ => {} } v }
         13 => { let mut v = vec![b(if src.chance(1, 2) { "HSCAN" } else { "ZSCAN" }), k, b("0")]; match src.below(4) { 0 => { v.push(b("COUNT")); v.push(b(["1", "2", "0"][src.idx(3)])); } 1 => { v.push(b("MATCH")); v.push(b(["*", "a*", "[ab]", "?"][src.idx(4)])); } 2 => v.push(b("MATCH")), _ => {} } v }
-        14 => vec![b("KEYS"), b(["k[01]", "[^k]*", "?0", "k\\0", "k[0-1]", "*:*", "K*", "k*0"][src.idx(8)])],
+        14 => vec![b("KEYS"), b(["k[01]", "[^k]*", "?0", "k\\0", "k[0-1]", "*:*", "K*", "k*0", "k0*0", "k1*k1", "k*k0", "*0*0"][src.idx(12)])],
         15 => {
             // arity / case mutations of an ordinary command
             let mut c = gen_cmd(src, g);
